@@ -49,6 +49,20 @@ def mods():
     return _MODS
 
 
+def stub(cls, **attrs):
+    """An instance of (a throw-away subclass of) the REAL class, built without __init__, carrying only the attributes
+    the handler under test reads: private helper methods the handler may call on `self` resolve as in production."""
+    import inspect
+    sub = type("Stub" + cls.__name__, (cls,), {})
+    obj = object.__new__(sub)
+    for k, v in attrs.items():
+        try:
+            object.__setattr__(obj, k, v)
+        except AttributeError:
+            setattr(sub, k, staticmethod(v) if inspect.isfunction(v) else v)
+    return obj
+
+
 class RecApi:
     def __init__(self, rsp=None):
         self.reqs = []
@@ -102,8 +116,8 @@ def run_send(case):
         entered.append(1)
         yield
 
-    app = types.SimpleNamespace(_api=api if case["connected"] else None, _limit_concurrency=lim,
-                                _device=types.SimpleNamespace(zdo=types.SimpleNamespace(zboss_specific_cmd=zcmd)))
+    app = stub(M.App, _api=api if case["connected"] else None, _limit_concurrency=lim,
+               _device=types.SimpleNamespace(zdo=types.SimpleNamespace(zboss_specific_cmd=zcmd)))
     mode = {"g": t.AddrMode.Group, "n": t.AddrMode.NWK, "i": t.AddrMode.IEEE, "b": t.AddrMode.Broadcast}[case["dst_mode"]]
     if case["dst_mode"] == "i":
         addr = t.EUI64.deserialize(unhx(case["dst_addr"]))[0]
@@ -220,8 +234,8 @@ def run_ind(case):
     M = mods()
     t, tz, c = M.t, M.t_zboss, M.c
     got = []
-    app = types.SimpleNamespace(state=types.SimpleNamespace(node_info=types.SimpleNamespace(nwk=t.NWK(case["own"]))),
-                                packet_received=got.append)
+    app = stub(M.App, state=types.SimpleNamespace(node_info=types.SimpleNamespace(nwk=t.NWK(case["own"]))),
+               packet_received=got.append)
     ind = c.APS.DataIndication.Ind(
         ParamLength=21, PayloadLength=case["payload_length"], FrameFC=tz.APSFrameFC(case["fc"]), SrcAddr=t.NWK(case["src"]),
         DstAddr=t.NWK(case["dst"]), GrpAddr=t.NWK(case["grp"]), DstEndpoint=case["dst_ep"], SrcEndpoint=case["src_ep"],
@@ -299,7 +313,7 @@ def ind_monitor(case, obs, det):
 # -- sequence numbers
 def run_seq(case):
     M = mods()
-    s = types.SimpleNamespace(_send_sequence=case["start"])
+    s = stub(M.App, _send_sequence=case["start"])
     try:
         v = M.App.get_sequence(s)
     except Exception as e:  # noqa
@@ -339,8 +353,9 @@ def run_bind(case, cmd=None):
                   StatusCode=tc.StatusCodeGeneric(case["status"]))
     api = RecApi(rsp)
     appl = types.SimpleNamespace(_api=api, get_sequence=lambda: case["tsn"])
-    zdo = types.SimpleNamespace(_device=types.SimpleNamespace(_application=appl, nwk=t.NWK(case["dev_nwk"])),
-                                log=lambda *a, **k: None)
+    zdo = stub(M.ZDO, _device=types.SimpleNamespace(_application=appl, nwk=t.NWK(case["dev_nwk"]),
+                                                    ieee=t.EUI64.deserialize(unhx(case.get("dev_ieee", "0102030405060708")))[0]),
+               log=lambda *a, **k: None)
     meth = M.ZDO.Bind_req if cmd == "bind" else M.ZDO.Unbind_req
     dst = make_multi(case)
     eui = t.EUI64.deserialize(unhx(case["eui"]))[0]
@@ -727,7 +742,7 @@ def run(chk):
 
     # the sequence chain: the real generator started at 0, every issued number fed back
     M = mods()
-    chain = types.SimpleNamespace(_send_sequence=0)
+    chain = stub(M.App, _send_sequence=0)
     chain_bad = None
     seen = set()
     for i in range(1000 * k):
